@@ -21,15 +21,17 @@ LOOKALIKES = ["envelope", "hex_text", "pem", "json", "yaml", "intel_hex", "newli
 
 
 def _fit_envelope(s: Stream, size: int):
-    """A well-formed SUIT envelope (tag 107; authentication wrapper with the true SHA-256 of the manifest; minimal
+    """A well-formed SUIT envelope (tag 107; authentication wrapper with the SHA-256 of the wrapped manifest; minimal
     manifest) of exactly `size` bytes - the length is reached with an integrated payload.  None when it cannot fit."""
     import hashlib
     from . import cborr
 
-    comp = [s.bytes(4)]
+    # a component id the tool itself writes that way (a byte-string-wrapped text), so that a parse / create round trip
+    # of this envelope - which happens when it is an integrated payload and the hierarchy is expanded - is the identity
+    comp = [cborr.enc("fw-" + s.bytes(4).hex())]
     common = cborr.enc({2: [comp]})
     manifest = cborr.enc({1: 1, 2: s.below(1 << 16), 3: common})
-    dg = cborr.enc([-16, hashlib.sha256(manifest).digest()])
+    dg = cborr.enc([-16, hashlib.sha256(cborr.enc(manifest)).digest()])  # over the byte-string-wrapped manifest
     auth = cborr.enc([dg])
     for pad in range(max(0, size - 140), size):
         e = cborr.enc(cborr.Tag(107, {2: auth, 3: manifest, "#p": s.fork(f"pad{pad}").bytes(pad)}))
